@@ -151,6 +151,7 @@ type Exec struct {
 	Uids    map[string]string // symbolic -> server upload id
 	Host    string            // Host header to use ("" = default)
 	Addr    func(r *Req)      // addressing-mode rewrite applied to every request (C16)
+	RawPath bool              // also set URL.RawPath, as net/http does for a request line whose escaping is not Go's canonical one
 	Api     bool              // call the Backend methods directly instead of the HTTP front end (api.go)
 	Sync    bool              // run the handler on the calling goroutine, let panics propagate
 	Timeout time.Duration
@@ -189,6 +190,9 @@ func (x *Exec) Serve(r *Req) *Observed {
 	u := &url.URL{Path: r.Path, RawQuery: r.Query.Encode()}
 	if r.RawQ != "" {
 		u.RawQuery = r.RawQ
+	}
+	if x.RawPath {
+		u.RawPath = wireEscape(r.Path)
 	}
 	body := r.Body
 	if body == nil {
@@ -377,7 +381,7 @@ func (x *Exec) Build(op Op) *Req {
 		if op.B("v2") {
 			r.Query.Set("list-type", "2")
 		}
-		if p := x.Conc.Key(op.Key("prefix")); p != "" {
+		if p := x.Conc.KeyPrefix(op.Key("prefix")); p != "" {
 			r.Query.Set("prefix", p)
 		}
 		if d := op.Key("delim"); d != "" {
@@ -404,7 +408,7 @@ func (x *Exec) Build(op Op) *Req {
 	case "ListVersions":
 		r := newReq("GET", "/"+b)
 		r.Query.Set("versions", "")
-		if p := x.Conc.Key(op.Key("prefix")); p != "" {
+		if p := x.Conc.KeyPrefix(op.Key("prefix")); p != "" {
 			r.Query.Set("prefix", p)
 		}
 		if d := op.Key("delim"); d != "" {
@@ -467,7 +471,7 @@ func (x *Exec) Build(op Op) *Req {
 	case "ListUploads":
 		r := newReq("GET", "/"+b)
 		r.Query.Set("uploads", "")
-		if p := x.Conc.Key(op.Key("prefix")); p != "" {
+		if p := x.Conc.KeyPrefix(op.Key("prefix")); p != "" {
 			r.Query.Set("prefix", p)
 		}
 		if d := op.Key("delim"); d != "" {
@@ -714,4 +718,21 @@ func setIMS(r *Req, op Op) {
 	case "future":
 		r.Header.Set("If-Modified-Since", "Fri, 01 Jan 2100 00:00:00 GMT")
 	}
+}
+
+// wireEscape writes a path the way many clients put it on the wire: unreserved characters, '/' and '+' literally,
+// everything else percent-encoded (so '=' and ':' are escaped although Go's canonical form leaves them alone;
+// net/http then records the original spelling in URL.RawPath).
+func wireEscape(p string) string {
+	var sb strings.Builder
+	for i := 0; i < len(p); i++ {
+		c := p[i]
+		switch {
+		case c >= 'a' && c <= 'z', c >= 'A' && c <= 'Z', c >= '0' && c <= '9', c == '-', c == '.', c == '_', c == '~', c == '/', c == '+':
+			sb.WriteByte(c)
+		default:
+			fmt.Fprintf(&sb, "%%%02X", c)
+		}
+	}
+	return sb.String()
 }
